@@ -202,6 +202,10 @@ func triangles(m modeling.Mesh, attr string, cpu int) (tris [][]int, ex bool) {
 	return
 }
 
+// marchLimit is generous: marching a multi-block canvas can take many seconds on a loaded
+// machine, and a deadline that fires on correct code would be a false alarm.
+const marchLimit = 120 * time.Second
+
 // marchOnce returns false when the call did not return within caseLimit (the
 // goroutine is left behind, so the process must not continue).
 func marchOnce(out *Writer, c Case, cv *marching.MarchingCanvas, what string, attr, cut2, procs int, par bool) bool {
@@ -220,7 +224,7 @@ func marchOnce(out *Writer, c Case, cv *marching.MarchingCanvas, what string, at
 	})
 	select {
 	case <-done:
-	case <-time.After(caseLimit):
+	case <-time.After(marchLimit):
 		// a marching call that never returns is an observation, not a harness failure
 		out.Encode(marchLine{K: "march", What: what, Attr: attr, Cut2: cut2, Proc: procs, Tris: [][]int{}, St: "TIMEOUT", Ex: true})
 		return false
